@@ -141,7 +141,33 @@ CLAIM = {
             'construction (states are values); on the code the child is compared with the model run of prefix + '
             'child operations and with its own first-principles shadow, the parent with its own; per-user views '
             '(blocks of H) are read-only views (R3). R14 - K = 257 users in every quick run, 257 / 258 / 300 '
-            '(plain and ExtInt) in thorough; 2^16+1 users would need a 2^32-entry matrix and is not run.',
+            '(plain and ExtInt) in thorough; 2^16+1 users would need a 2^32-entry matrix and is not run. '
+            'R15 (distinct values that are merely close; applies to every setter and to the transmitted data - the '
+            'source has no value comparison today, so the class guards against an isclose / threshold / rounded-key '
+            'shortcut): THEOREMS setter_takes_effect_for_every_new_value (the second of two accepted set_pathloss / '
+            'noise_var / set_post_filter / init_from_channel_matrix calls decides alone, whatever was set before), '
+            'lookup_exact (pathloss / noise_var / big_H read back exactly the argument; different arguments give '
+            'different outputs), every_accepted_noise_variance_adds_noise (no magnitude threshold). Code: for each of '
+            'set_pathloss, noise_var, init_from_channel_matrix, set_post_filter, corrupt_data / '
+            'corrupt_concatenated_data and each kind of closeness (roots 1 vs 1+2^-26, relative 2^-20 at 0.56 and at '
+            '9.7e9, 9.1e-13 vs 2.0e-12, 0 vs 3.6e-15, 1 vs 1+2^-19, 3.7e-9 vs 3.7e-9+1.8e-15) value 1, every '
+            'observable, value 2, every observable: EXACT correspondence with the model and exact first-principles '
+            'oracle (all values are squares of dyadic rationals, one many-bit factor at a time so binary64 is exact); '
+            'the float stream adds truly adjacent doubles (0.3 / nextafter), 2.4e9 vs 2.4e9+2e4, 1e-12 vs 4e-13, 0.5 '
+            'vs 0.5+1e-13, where pathloss / noise_var must read back bit for bit and the derived views are compared '
+            'relative to their own scale (1e-9): a difference below 1e-9 relative in a DERIVED view is only visible '
+            'in the exact stream. R16 (argument identity and buffer reuse): Model/C08Buf.lean (caller heap, refill, '
+            'call with arguments read at call time), THEOREMS results_depend_on_contents_at_call_time, '
+            'later_refills_do_not_change_earlier_results; on the code BufPool hands every array argument (channel '
+            'matrix, Nr / Nt / NtE, both parts of the path loss, filters, data blocks, stacked data) to the object '
+            'through ONE preallocated array per shape and element type refilled in place, the containers (list / '
+            'object array of filters / data) reused and reassigned in place, equal contents within one call = the '
+            'SAME array object (Nr is Nt is NtE, set_pathloss(P, P), corrupt_data(D, D), one block for every user), '
+            'arguments overwritten after the call; every output is compared exactly with the model run on the '
+            'contents at call time and with the first-principles shadow, earlier outputs must keep their values, a '
+            'caller array that became read-only is reported (r16:caller-array-made-read-only). Not covered: '
+            'argument identity across DIFFERENT channel objects sharing one array (R7 shares objects between users '
+            'only through the oracle).',
 }
 
 # which comparison between the regenerated effect tables and the model fails (run only when the build broke)
@@ -2619,9 +2645,13 @@ def r16_scenarios(ctx, exact=True, reps=1):
             lay = (g.K, list(g.nr), list(g.nt), list(g.ntE))
             reads = lambda: [g.ops.append({'op': v}) for v in ('bigH', 'H', 'pl', 'bigW')] + \
                 [g.ops.append({'op': 'Hk', 'k': rng.below(g.K), 'kf': 'py'})]
-            for entry in ('init', 'setpl', 'setw', 'corrupt', 'corruptc', 'init'):
+            for entry in ('init', 'setpl', 'setw', 'corrupt', 'corruptc', 'init') + (('rand',) if exact else ()):
                 for t in range(3):
-                    if entry == 'init':
+                    if entry == 'rand':
+                        op = g.init_op('rand', *lay)
+                        op.update(nrf='array', ntf='array', ntef='array', reseed=False)
+                        g.ops.append(op)
+                    elif entry == 'init':
                         op = g.init_op('init', *lay)
                         op.update(M=g.mat(sum(lay[1]), sum(lay[2]) + sum(lay[3]), g.ea), fM=None, nrf='array',
                                   ntf='array', ntef='array', scr=bool(t % 2))
@@ -2681,7 +2711,7 @@ REQUIRED = ['read-mutate-read:plain', 'read-mutate-read:ext', 'relayout:plain', 
     ['r15:' + c for c in ('set_pathloss', 'noise_var', 'init_from_channel_matrix', 'set_post_filter', 'corrupt_data')] + \
     ['r15:variant:' + v for v in ('adjacent', 'rel1e-6', 'large', 'tiny', 'zero-vs-tiny', 'near-one',
                                   'beyond-12th-decimal')] + ['r15:stream:exact', 'r15:stream:float'] + \
-    ['r16:refilled:' + c for c in ('init_from_channel_matrix', 'set_pathloss', 'set_post_filter', 'corrupt_data',
+    ['r16:refilled:' + c for c in ('init_from_channel_matrix', 'randomize', 'set_pathloss', 'set_post_filter', 'corrupt_data',
                                    'corrupt_concatenated_data', 'plain', 'ext')] + \
     ['r16:two-roles:' + c for c in ('init_from_channel_matrix', 'set_pathloss', 'corrupt_data', 'plain', 'ext')] + \
     ['r16:same-block-twice:set_post_filter', 'r16:same-block-twice:corrupt_data',
@@ -2701,7 +2731,10 @@ def check(ctx):
                 'the calls; length 2..L; exact stream (Gaussian integers, square path losses, integer RNG) compared '
                 'token by token with the Lean model, the same generator with real floats for the oracle-only stream; '
                 'evaluations = operations executed; non-trivial = a read of a view that was read before the latest '
-                'mutation (read-mutate-read), a transmission, or a rejected call')
+                'mutation (read-mutate-read), a transmission, or a rejected call; R15 blocks (setter(v1), all '
+                'observables, setter(v2 close to v1), all observables; fixed scenario set + 3% of the plain-mode '
+                'steps); R16: one plain-mode slot in five and the r16 scenarios run through the caller\'s refilled '
+                'preallocated arrays (BufPool), layouts in which one array serves two parameters')
     proved = core.prove(ctx, MODULE, generated=['C08Effects'], drivers=[DRIVER], scratch=ctx.scratch)
     if not proved and not any(b['kind'] == 'tie' for b in ctx.broken):
         from harness.gen import _effects
